@@ -145,9 +145,50 @@ def handleGraph (args : List String) : Verdict :=
             msg := if ok then "model labelling differs" else s!"components={partsOk} singleNetwork={snOk} distances={distSpecOk} reduceExpand={redexp} structureEquivalence={ideq} (want 10) structureId={sidOk} (the id is the largest sorted concatenation over the max-degree starts, and the renumbered copy has the same id)",
             tag := s!"graph:n{min n 13}:{if connected then "connected" else "disconnected"}:{if cyc == 0 then "forest" else if cyc == 1 then "one-ring" else "fused-rings"}" } : Verdict)).getD (bad "graph fields")
 
+/-- one bead list of the `sep` op: `n (hexname mant exp)*` -/
+def takeBeads : Nat → List String → Option (List (String × Rat) × List String)
+  | 0, r => some ([], r)
+  | k + 1, hn :: m :: e :: r => do
+    let nm ← (unhex hn).map String.ofList
+    let mi ← m.toInt?
+    let ei ← e.toInt?
+    let (more, r') ← takeBeads k r
+    pure ((nm, dyadic mi ei) :: more, r')
+  | _, _ => none
+
+/-- is `a` a permutation of `b` (multisets of (name, mass) pairs, masses as exact rationals) -/
+def sameMultiset (a b : List (String × Rat)) : Bool :=
+  a.length == b.length && a.all (fun x => a.count x == b.count x)
+
+/-- separation clause: "structures whose multisets of bead names and masses differ are reported as different" (and identical copies as equivalent) -/
+def handleSep (args : List String) : Verdict :=
+  match args with
+  | kind :: na :: rest =>
+    (do
+      let n ← na.toNat?
+      let (a, r1) ← takeBeads n rest
+      let ma ← r1.head? >>= String.toNat?
+      let r1' := r1.tail.drop (2 * ma)
+      let nb ← r1'.head? >>= String.toNat?
+      let (b, r2) ← takeBeads nb r1'.tail
+      let mb ← r2.head? >>= String.toNat?
+      let r2 := r2.tail.drop (2 * mb)
+      match r2 with
+      | ["=>", flag] =>
+        let same := sameMultiset a b
+        let want := if same then "1" else "0"
+        let ok := flag == want
+        pure ({ propOk := ok,
+                msg := if ok then "" else if same then s!"C16-EQUIVALENCE kind={kind} identical structures (renumbered, reversed insertion) reported {flag}"
+                       else s!"C16-SEPARATION kind={kind} the multisets of (name, mass) differ but the structures are reported equivalent ({flag})",
+                tag := s!"sep:{(kind.splitOn ":").headD kind}:{if same then "same" else "differ"}" } : Verdict)
+      | _ => none).getD (bad "sep payload")
+  | _ => bad "sep arity"
+
 def handle (args : List String) : Verdict :=
   match args with
   | "graph" :: r => handleGraph r
+  | "sep" :: r => handleSep r
   | _ => bad "unknown op"
 
 end Driver.C16
